@@ -1,6 +1,6 @@
-from . import evaluate, numeric, structure, reduce, symbolic, wrappers, frame
+from . import evaluate, numeric, structure, reduce, symbolic, wrappers, frame, ordering
 
-MODULES = [evaluate, numeric, structure, reduce, symbolic, wrappers, frame]
+MODULES = [evaluate, numeric, structure, reduce, symbolic, wrappers, frame, ordering]
 
 
 def all_specs(prog, tier):
